@@ -1,6 +1,6 @@
 (* C19/Proofs.v — collects the proof files and states, per instance, the link "the model
    satisfies the executable spec for ALL inputs" (every trace, hence every schedule). *)
-From Verif Require Export C19.Model C19.Pool C19.ProofsGen C19.ProofsPool C19.ProofsField C19.ProofsShard C19.ProofsMeta C19.Wait C19.ProofsWait.
+From Verif Require Export C19.Model C19.Pool C19.ProofsGen C19.ProofsPool C19.ProofsField C19.ProofsShard C19.ProofsMeta C19.Wait C19.ProofsWait C19.CacheInit C19.ProofsCacheInit.
 Open Scope N_scope.
 
 (* (b) every disciplined trace leaves the model in a state on which the executable pool
@@ -35,3 +35,7 @@ Proof. intros H. apply N.eqb_eq. eapply m_acc; [apply meta_trace_inv|exact H]. Q
 (* (e) *)
 Lemma wait_model_satisfies_spec tr w : stuck (run_trace wexec tr winit) w = false.
 Proof. apply winv_not_stuck, wait_trace_inv. Qed.
+
+(* (f) *)
+Lemma cache_init_model_satisfies_spec tr : cache_acked_visible (run_trace cexec tr cinit) = true.
+Proof. apply cinv_acked_visible, cache_init_trace_inv. Qed.
